@@ -1,26 +1,860 @@
-//! C09 - not built yet.
-use crate::engine::{PropertyInfo, RunCtx};
+//! C09 - restart semantics: warm keeps exactly RETAIN data, cold equals a fresh start.
+//!
+//! A case is a `Scenario`: generated ST sources (CONFIGURATION with VAR_GLOBAL blocks of
+//! every retain qualifier, 1-3 programs with VAR blocks of every qualifier over all
+//! retainable types, FB instances with state, AT %I/%Q variables at global, program and FB
+//! level, VAR_ACCESS paths, tasks with INTERVAL/SINGLE and FB associations) plus a history
+//! of ops {Cycle(inputs, dt), Input, Restart(Warm|Cold), PowerCycle, Fault}.
+//!
+//! Oracle: at every restart-type op a *reference runtime* R is built freshly from the same
+//! sources. Cold: R is left as built. Warm / PowerCycle: the values the RETAIN/PERSISTENT
+//! variables had before the op are written into R through the storage API (this is the
+//! model "retained = value before, everything else = declared initial value"). The runtime
+//! under test A (restarted, or - for PowerCycle - rebuilt and loaded from a FileRetainStore)
+//! must then have the same variables as R (structural storage dump modulo instance ids;
+//! for Cold also time, fault latch, frames, cycle counter, overrun counters), and for every
+//! following op of the history, which is applied to both, the same cycle errors, variables,
+//! meta state, %Q image and VAR_ACCESS reads - so a binding that restart disconnected shows
+//! as a difference in the first cycle that exercises it.
+
+use std::collections::{BTreeMap, BTreeSet};
+use std::sync::atomic::{AtomicU64, Ordering};
+
+use proptest::prelude::*;
+use serde::{Deserialize, Serialize};
+use serde_json::json;
+use trust_runtime::harness::TestHarness;
+use trust_runtime::io::IoAddress;
+use trust_runtime::memory::InstanceId;
+use trust_runtime::retain::FileRetainStore;
+use trust_runtime::value::{Duration, Value};
+use trust_runtime::{RestartMode, Runtime};
+
+use crate::engine::tape::{tape_strategy, Tape};
+use crate::engine::{Probe, PropertyInfo, RunCtx, Tier};
+
+#[path = "c09/gen.rs"]
+mod gen;
+
+pub const K_RETAIN_FB: &str = "C09-retain-fb-instance";
+pub const K_VARCONFIG: &str = "C09-var-config-init-lost";
+pub const K_MEM: &str = "C09-marker-memory-not-reset";
+pub const K_RWR: &str = "C09-restart-with-retain-stale-store";
 
 pub fn info() -> PropertyInfo {
     PropertyInfo {
         id: "C09",
         level: "exploration",
-        rule: "not built yet",
-        assumptions: &[],
-        workers_quick: 1,
-        workers_thorough: 1,
+        rule: "cases = generated CONFIGURATION/programs (qualifier x scope x type mixes, FB instances, AT %I/%Q, VAR_ACCESS, INTERVAL/SINGLE tasks, FB task associations) + histories of Cycle/Input/Restart(Warm|Cold)/PowerCycle/Fault ops; non-trivial = the history contains a restart-type op after >= 1 cycle such that a retained AND a non-retained variable differ from their initial values at that point, and the ops after it contain >= 1 fault-free cycle with a non-zero input while the case declares a %Q binding or VAR_ACCESS path; distinct by SHA-256 of sources + ops",
+        assumptions: &[
+            "declared initial value of a variable = its value in a runtime freshly built from the same sources (the property's own definition of a fresh start); the check does not re-derive initial values from the literal text",
+            "the physical %Q image is compared only after a cycle that completed on both runtimes (restart leaves the previous %Q image in place until the first cycle publishes; the property speaks of outputs for a subsequent input trace)",
+            "every cycle of a continuation drives every declared %I address on both runtimes (inputs are environment, not state)",
+            "after a warm restart / power cycle only variables are demanded by the property; the continuation differential against the model runtime is run when time, fault latch and cycle counter agree as well (they do on the real code: restart resets them in both modes)",
+            "SINGLE trigger variables are declared non-retained (the property does not define the task edge state after a warm restart)",
+            "FB instances are never declared RETAIN/PERSISTENT, VAR_CONFIG carries no initial values and no variable is bound to %M while the corresponding known findings are open (counted as excluded shapes)",
+            "power cycle in the quick tier = save -> new Runtime from the same sources -> load through FileRetainStore inside one process; the thorough tier additionally loads the file in a separate tpv process and compares its dump",
+        ],
+        workers_quick: 8,
+        workers_thorough: 16,
         address_space_limit: 0,
-        watchdog_quick_s: 600,
-        watchdog_thorough_s: 3600,
+        watchdog_quick_s: 900,
+        watchdog_thorough_s: 7200,
         run,
     }
 }
 
-/// Helper subcommands (child processes of this check); None = not mine.
-pub fn helper(_args: &[String]) -> Option<i32> {
+// ---------------------------------------------------------------------------------------
+// case format
+
+#[derive(Clone, Debug, Serialize, Deserialize, PartialEq)]
+pub struct InputSpec {
+    pub addr: String,
+    /// 1, 8, 16, 32 or 64
+    pub bits: u8,
+}
+
+#[derive(Clone, Debug, Serialize, Deserialize, PartialEq)]
+pub enum Op {
+    /// write every declared input (index-aligned with `Scenario::inputs`), advance time, cycle
+    Cycle { inputs: Vec<u64>, dt_ns: i64 },
+    /// direct write of one %I address without running a cycle
+    Input { index: usize, value: u64 },
+    Restart { cold: bool },
+    /// save retain store -> new runtime from the same sources -> load
+    PowerCycle,
+    /// latch a fault from outside (Runtime::simulation_fault)
+    Fault,
+    /// TestHarness::restart_with_retain(mode): the sequence the resource loop runs on a
+    /// restart request when a retain store is configured
+    RestartWithRetain { cold: bool },
+    /// save the retain store now (hand-written reproducers)
+    SaveStore,
+}
+
+#[derive(Clone, Debug, Serialize, Deserialize)]
+pub struct Scenario {
+    pub source: String,
+    /// keys of the RETAIN/PERSISTENT variables: "g:<global>" or "p:<ProgramInstance>.<var>"
+    pub retained: Vec<String>,
+    pub inputs: Vec<InputSpec>,
+    /// %Q addresses read after every completed cycle
+    pub outputs: Vec<String>,
+    /// VAR_ACCESS names read after every op
+    pub access: Vec<String>,
+    pub ops: Vec<Op>,
+    /// Some(ms): a FileRetainStore is configured from the start with this save interval
+    /// (negative = no periodic save)
+    #[serde(default)]
+    pub store_interval_ms: Option<i64>,
+    #[serde(default)]
+    pub labels: Vec<String>,
+    #[serde(default)]
+    pub excluded: Vec<String>,
+}
+
+// ---------------------------------------------------------------------------------------
+// structural storage dump (modulo instance ids)
+
+fn dump_value(rt: &Runtime, v: &Value, depth: usize) -> String {
+    match v {
+        Value::Instance(id) => dump_instance(rt, *id, depth + 1),
+        Value::Array(a) => {
+            let els: Vec<String> = a
+                .elements
+                .iter()
+                .map(|e| dump_value(rt, e, depth + 1))
+                .collect();
+            format!("Array{:?}[{}]", a.dimensions, els.join(", "))
+        }
+        Value::Struct(s) => {
+            let fs: Vec<String> = s
+                .fields
+                .iter()
+                .map(|(k, e)| format!("{k}: {}", dump_value(rt, e, depth + 1)))
+                .collect();
+            format!("Struct {}{{{}}}", s.type_name, fs.join(", "))
+        }
+        Value::Real(r) => format!("Real({:?}/{:#x})", r, r.to_bits()),
+        Value::LReal(r) => format!("LReal({:?}/{:#x})", r, r.to_bits()),
+        Value::Reference(Some(_)) => "Reference(Some)".to_string(),
+        other => format!("{other:?}"),
+    }
+}
+
+fn dump_instance(rt: &Runtime, id: InstanceId, depth: usize) -> String {
+    if depth > 16 {
+        return "<deep>".into();
+    }
+    let Some(inst) = rt.storage().get_instance(id) else {
+        return "<dangling instance>".into();
+    };
+    let vars: Vec<String> = inst
+        .variables
+        .iter()
+        .map(|(k, v)| format!("{k}: {}", dump_value(rt, v, depth)))
+        .collect();
+    let parent = match inst.parent {
+        Some(p) => format!(" parent={}", dump_instance(rt, p, depth + 1)),
+        None => String::new(),
+    };
+    format!("Inst {}{{{}}}{}", inst.type_name, vars.join(", "), parent)
+}
+
+#[derive(Clone, Debug, Default, PartialEq, Serialize, Deserialize)]
+pub struct Dump {
+    /// "g:<global>" / "p:<ProgramInstance>.<var>" -> rendered value
+    pub vars: BTreeMap<String, String>,
+    /// time, fault latch, frames, cycle counter, overrun counters, retain area
+    pub meta: BTreeMap<String, String>,
+}
+
+pub fn dump(rt: &Runtime) -> Dump {
+    let mut d = Dump::default();
+    for (k, v) in rt.storage().globals() {
+        if rt.programs().contains_key(k) {
+            if let Value::Instance(id) = v {
+                match rt.storage().get_instance(*id) {
+                    Some(inst) => {
+                        d.vars
+                            .insert(format!("p:{k}"), format!("Inst {}", inst.type_name));
+                        for (name, value) in &inst.variables {
+                            d.vars
+                                .insert(format!("p:{k}.{name}"), dump_value(rt, value, 0));
+                        }
+                    }
+                    None => {
+                        d.vars.insert(format!("p:{k}"), "<dangling instance>".into());
+                    }
+                }
+                continue;
+            }
+        }
+        d.vars.insert(format!("g:{k}"), dump_value(rt, v, 0));
+    }
+    for (k, v) in rt.storage().retain() {
+        d.meta.insert(format!("retain_area:{k}"), dump_value(rt, v, 0));
+    }
+    d.meta
+        .insert("frames".into(), rt.storage().frames().len().to_string());
+    d.meta
+        .insert("time_ns".into(), rt.current_time().as_nanos().to_string());
+    d.meta.insert(
+        "fault_latch".into(),
+        format!("{} {:?}", rt.faulted(), rt.last_fault()),
+    );
+    d.meta
+        .insert("cycle_counter".into(), rt.cycle_counter().to_string());
+    for t in rt.tasks() {
+        d.meta.insert(
+            format!("overrun:{}", t.name),
+            format!("{:?}", rt.task_overrun_count(&t.name)),
+        );
+    }
+    d
+}
+
+fn first_diff(a: &BTreeMap<String, String>, b: &BTreeMap<String, String>) -> Option<String> {
+    let keys: BTreeSet<&String> = a.keys().chain(b.keys()).collect();
+    for k in keys {
+        let (x, y) = (a.get(k), b.get(k));
+        if x != y {
+            let show = |v: Option<&String>| match v {
+                Some(s) => s.clone(),
+                None => "<absent>".to_string(),
+            };
+            return Some(format!("{k}: got {} | expected {}", show(x), show(y)));
+        }
+    }
     None
 }
 
+// ---------------------------------------------------------------------------------------
+// driving a runtime
+
+fn build(source: &str) -> Result<TestHarness, String> {
+    TestHarness::from_source(source).map_err(|e| e.to_string())
+}
+
+fn input_value(bits: u8, v: u64) -> Value {
+    match bits {
+        1 => Value::Bool(v & 1 == 1),
+        8 => Value::Byte(v as u8),
+        16 => Value::Word(v as u16),
+        32 => Value::DWord(v as u32),
+        _ => Value::LWord(v),
+    }
+}
+
+fn write_input(h: &mut TestHarness, spec: &InputSpec, v: u64) {
+    let addr = IoAddress::parse(&spec.addr).expect("generated input address parses");
+    h.runtime_mut()
+        .io_mut()
+        .write(&addr, input_value(spec.bits, v))
+        .expect("direct input write");
+}
+
+fn do_cycle(h: &mut TestHarness, sc: &Scenario, inputs: &[u64], dt_ns: i64) -> Vec<String> {
+    for (i, spec) in sc.inputs.iter().enumerate() {
+        write_input(h, spec, inputs.get(i).copied().unwrap_or(0));
+    }
+    h.advance_time(Duration::from_nanos(dt_ns));
+    let r = h.cycle();
+    r.errors.iter().map(|e| format!("{e:?}")).collect()
+}
+
+fn read_outputs(h: &TestHarness, sc: &Scenario) -> BTreeMap<String, String> {
+    let mut m = BTreeMap::new();
+    for a in &sc.outputs {
+        let addr = IoAddress::parse(a).expect("generated output address parses");
+        m.insert(a.clone(), format!("{:?}", h.runtime().io().read(&addr)));
+    }
+    m
+}
+
+fn read_access(h: &TestHarness, sc: &Scenario) -> BTreeMap<String, String> {
+    let mut m = BTreeMap::new();
+    for a in &sc.access {
+        let v = h.runtime().read_access(a);
+        m.insert(
+            a.clone(),
+            match v {
+                Some(v) => dump_value(h.runtime(), &v, 0),
+                None => "<unreadable>".into(),
+            },
+        );
+    }
+    m
+}
+
+/// A captured value: plain data, or the member values of an FB instance (only hand-written
+/// reproducers declare FB instances RETAIN; the generator never does).
+#[derive(Clone, Debug)]
+enum Captured {
+    Plain(Value),
+    Instance(Vec<(String, Captured)>),
+}
+
+fn capture_value(rt: &Runtime, v: &Value, depth: usize) -> Captured {
+    match v {
+        Value::Instance(id) if depth < 8 => match rt.storage().get_instance(*id) {
+            Some(inst) => Captured::Instance(
+                inst.variables
+                    .iter()
+                    .map(|(k, v)| (k.to_string(), capture_value(rt, v, depth + 1)))
+                    .collect(),
+            ),
+            None => Captured::Plain(v.clone()),
+        },
+        other => Captured::Plain(other.clone()),
+    }
+}
+
+/// Current values of the retained variables (the actual `Value`s).
+fn capture_retained(h: &TestHarness, sc: &Scenario) -> Vec<(String, Captured)> {
+    let rt = h.runtime();
+    let mut out = Vec::new();
+    for key in &sc.retained {
+        let v = if let Some(name) = key.strip_prefix("g:") {
+            rt.storage().get_global(name)
+        } else if let Some(rest) = key.strip_prefix("p:") {
+            let (prog, var) = rest.split_once('.').expect("p:<prog>.<var>");
+            match rt.storage().get_global(prog) {
+                Some(Value::Instance(id)) => rt.storage().get_instance_var(*id, var),
+                _ => None,
+            }
+        } else {
+            None
+        };
+        if let Some(v) = v {
+            out.push((key.clone(), capture_value(rt, v, 0)));
+        }
+    }
+    out
+}
+
+fn inject_instance(h: &mut TestHarness, id: InstanceId, members: &[(String, Captured)]) {
+    for (name, c) in members {
+        match c {
+            Captured::Plain(v) => {
+                h.runtime_mut()
+                    .storage_mut()
+                    .set_instance_var(id, name.as_str(), v.clone());
+            }
+            Captured::Instance(inner) => {
+                if let Some(Value::Instance(nested)) =
+                    h.runtime().storage().get_instance_var(id, name).cloned()
+                {
+                    inject_instance(h, nested, inner);
+                }
+            }
+        }
+    }
+}
+
+/// The model of "retained = value before": write the captured values into a fresh runtime.
+fn inject(h: &mut TestHarness, values: &[(String, Captured)]) {
+    for (key, c) in values {
+        if let Some(name) = key.strip_prefix("g:") {
+            match c {
+                Captured::Plain(v) => h.runtime_mut().storage_mut().set_global(name, v.clone()),
+                Captured::Instance(members) => {
+                    if let Some(Value::Instance(id)) =
+                        h.runtime().storage().get_global(name).cloned()
+                    {
+                        inject_instance(h, id, members);
+                    }
+                }
+            }
+        } else if let Some(rest) = key.strip_prefix("p:") {
+            let (prog, var) = rest.split_once('.').expect("p:<prog>.<var>");
+            let id = match h.runtime().storage().get_global(prog) {
+                Some(Value::Instance(id)) => *id,
+                _ => continue,
+            };
+            match c {
+                Captured::Plain(v) => {
+                    h.runtime_mut()
+                        .storage_mut()
+                        .set_instance_var(id, var, v.clone());
+                }
+                Captured::Instance(members) => {
+                    if let Some(Value::Instance(nested)) =
+                        h.runtime().storage().get_instance_var(id, var).cloned()
+                    {
+                        inject_instance(h, nested, members);
+                    }
+                }
+            }
+        }
+    }
+}
+
+static STORE_SEQ: AtomicU64 = AtomicU64::new(0);
+static COMPILE_ERRORS: AtomicU64 = AtomicU64::new(0);
+
+fn scratch_dir() -> std::path::PathBuf {
+    let d = std::env::temp_dir().join(format!("tpv-c09-{}", std::process::id()));
+    let _ = std::fs::create_dir_all(&d);
+    d
+}
+
+fn store_path() -> std::path::PathBuf {
+    scratch_dir().join(format!(
+        "retain-{}.bin",
+        STORE_SEQ.fetch_add(1, Ordering::Relaxed)
+    ))
+}
+
+#[derive(Clone, Copy, PartialEq, Debug)]
+enum Kind {
+    Cold,
+    Warm,
+    Power,
+}
+
+struct Reference {
+    h: TestHarness,
+    kind: Kind,
+    at_op: usize,
+}
+
+struct RestartFacts {
+    ret_changed: bool,
+    non_changed: bool,
+    cycles_before: usize,
+    exercised_after: bool,
+}
+
+#[derive(Clone, Copy)]
+pub struct RunOpts {
+    pub separate_process: bool,
+}
+
+/// Compare A against the reference after one op. `outputs` = the cycle completed on both.
+fn compare(
+    a: &TestHarness,
+    r: &Reference,
+    sc: &Scenario,
+    what: &str,
+    full: bool,
+    outputs: bool,
+) -> Result<(), String> {
+    let ctx = |part: &str, d: String| {
+        format!(
+            "{what}: {part} differ from the {} after the {:?} restart at op {} - {d}",
+            match r.kind {
+                Kind::Cold => "freshly built runtime",
+                _ => "model (fresh runtime + values the RETAIN/PERSISTENT variables had before)",
+            },
+            r.kind,
+            r.at_op
+        )
+    };
+    let da = dump(a.runtime());
+    let dr = dump(r.h.runtime());
+    if let Some(d) = first_diff(&da.vars, &dr.vars) {
+        return Err(ctx("variables", d));
+    }
+    if full {
+        if let Some(d) = first_diff(&da.meta, &dr.meta) {
+            return Err(ctx("time/fault latch/task state", d));
+        }
+    }
+    if let Some(d) = first_diff(&read_access(a, sc), &read_access(&r.h, sc)) {
+        return Err(ctx("VAR_ACCESS reads", d));
+    }
+    if outputs {
+        if let Some(d) = first_diff(&read_outputs(a, sc), &read_outputs(&r.h, sc)) {
+            return Err(ctx("%Q outputs", d));
+        }
+    }
+    Ok(())
+}
+
+pub fn run_scenario(sc: &Scenario, probe: &mut Probe, opts: RunOpts) -> Result<(), String> {
+    for l in &sc.labels {
+        probe.label(l.clone());
+    }
+    for e in &sc.excluded {
+        probe.excluded(e.clone());
+    }
+    let mut a = match build(&sc.source) {
+        Ok(h) => h,
+        Err(e) => {
+            COMPILE_ERRORS.fetch_add(1, Ordering::Relaxed);
+            probe.label("gen=compile_error");
+            probe.sample(json!({"compile_error": e, "source": sc.source}));
+            return Ok(());
+        }
+    };
+    let fresh = dump(a.runtime());
+    for k in &sc.retained {
+        if !fresh.vars.contains_key(k) {
+            return Err(format!(
+                "harness: retained key {k} does not exist in the storage dump"
+            ));
+        }
+    }
+    let retained: BTreeSet<&String> = sc.retained.iter().collect();
+    let mut reference: Option<Reference> = None;
+    let mut facts: Vec<RestartFacts> = Vec::new();
+    let mut cycles = 0usize;
+    let mut restarts = 0usize;
+    let mut store_for_rwr: Option<std::path::PathBuf> = None;
+    let mut to_remove: Vec<std::path::PathBuf> = Vec::new();
+
+    if let Some(ms) = sc.store_interval_ms {
+        let path = store_path();
+        to_remove.push(path.clone());
+        a.runtime_mut().set_retain_store(
+            Some(Box::new(FileRetainStore::new(&path))),
+            if ms < 0 { None } else { Some(Duration::from_millis(ms)) },
+        );
+        store_for_rwr = Some(path);
+    }
+
+    let result = (|| -> Result<(), String> {
+        for (i, op) in sc.ops.iter().enumerate() {
+            match op {
+                Op::Cycle { inputs, dt_ns } => {
+                    let ea = do_cycle(&mut a, sc, inputs, *dt_ns);
+                    cycles += 1;
+                    if ea.is_empty() {
+                        probe.label("cycle=ok");
+                    } else {
+                        probe.label("cycle=fault");
+                    }
+                    if let Some(r) = reference.as_mut() {
+                        let er = do_cycle(&mut r.h, sc, inputs, *dt_ns);
+                        if ea != er {
+                            return Err(format!(
+                                "op {i} (cycle): errors {ea:?} differ from {er:?} of the reference built at the {:?} restart (op {})",
+                                r.kind, r.at_op
+                            ));
+                        }
+                        let ok = ea.is_empty();
+                        compare(&a, r, sc, &format!("op {i} (cycle)"), true, ok)?;
+                        if ok && inputs.iter().any(|v| *v != 0) {
+                            if let Some(f) = facts.last_mut() {
+                                f.exercised_after = true;
+                            }
+                        }
+                    }
+                }
+                Op::Input { index, value } => {
+                    if let Some(spec) = sc.inputs.get(*index) {
+                        write_input(&mut a, spec, *value);
+                        if let Some(r) = reference.as_mut() {
+                            write_input(&mut r.h, spec, *value);
+                        }
+                    }
+                }
+                Op::Fault => {
+                    let _ = a.runtime_mut().simulation_fault("c09 injected fault");
+                    probe.label("op=fault");
+                    // an external fault is not part of an input trace: the differential ends
+                    reference = None;
+                }
+                Op::SaveStore => {
+                    if store_for_rwr.is_none() {
+                        let path = store_path();
+                        to_remove.push(path.clone());
+                        a.runtime_mut()
+                            .set_retain_store(Some(Box::new(FileRetainStore::new(&path))), None);
+                        store_for_rwr = Some(path);
+                    }
+                    a.runtime_mut()
+                        .save_retain_store()
+                        .map_err(|e| format!("op {i}: save_retain_store failed: {e:?}"))?;
+                }
+                Op::Restart { .. } | Op::PowerCycle | Op::RestartWithRetain { .. } => {
+                    restarts += 1;
+                    let before = dump(a.runtime());
+                    let captured = capture_retained(&a, sc);
+                    let ret_changed = retained
+                        .iter()
+                        .any(|k| before.vars.get(*k) != fresh.vars.get(*k));
+                    let non_changed = before
+                        .vars
+                        .iter()
+                        .any(|(k, v)| !retained.contains(k) && fresh.vars.get(k) != Some(v));
+                    if a.runtime().faulted() {
+                        probe.label("restart=from_faulted");
+                    }
+                    let kind = match op {
+                        Op::Restart { cold: true } | Op::RestartWithRetain { cold: true } => {
+                            Kind::Cold
+                        }
+                        Op::Restart { cold: false } | Op::RestartWithRetain { cold: false } => {
+                            Kind::Warm
+                        }
+                        _ => Kind::Power,
+                    };
+                    match op {
+                        Op::Restart { cold } => {
+                            let mode = if *cold { RestartMode::Cold } else { RestartMode::Warm };
+                            a.restart(mode)
+                                .map_err(|e| format!("op {i}: restart({mode:?}) failed: {e:?}"))?;
+                            probe.label(if *cold { "restart=cold" } else { "restart=warm" });
+                        }
+                        Op::RestartWithRetain { cold } => {
+                            let mode = if *cold { RestartMode::Cold } else { RestartMode::Warm };
+                            if store_for_rwr.is_none() {
+                                let path = store_path();
+                                to_remove.push(path.clone());
+                                a.runtime_mut().set_retain_store(
+                                    Some(Box::new(FileRetainStore::new(&path))),
+                                    None,
+                                );
+                                store_for_rwr = Some(path);
+                            }
+                            a.restart_with_retain(mode).map_err(|e| {
+                                format!("op {i}: restart_with_retain({mode:?}) failed: {e:?}")
+                            })?;
+                            probe.label("restart=with_retain");
+                        }
+                        _ => {
+                            let path = store_path();
+                            to_remove.push(path.clone());
+                            a.runtime_mut().set_retain_store(
+                                Some(Box::new(FileRetainStore::new(&path))),
+                                None,
+                            );
+                            a.runtime_mut()
+                                .save_retain_store()
+                                .map_err(|e| format!("op {i}: save_retain_store failed: {e:?}"))?;
+                            let mut b = build(&sc.source)
+                                .map_err(|e| format!("harness: rebuild failed: {e}"))?;
+                            b.runtime_mut().set_retain_store(
+                                Some(Box::new(FileRetainStore::new(&path))),
+                                None,
+                            );
+                            b.runtime_mut()
+                                .load_retain_store()
+                                .map_err(|e| format!("op {i}: load_retain_store failed: {e:?}"))?;
+                            if opts.separate_process {
+                                let theirs = load_in_child(&sc.source, &path)?;
+                                let mine = dump(b.runtime());
+                                if let Some(d) = first_diff(&theirs.vars, &mine.vars) {
+                                    return Err(format!(
+                                        "op {i}: power cycle across a process boundary differs from the in-process one - {d}"
+                                    ));
+                                }
+                                probe.label("power=separate_process");
+                            }
+                            a = b;
+                            store_for_rwr = Some(path);
+                            probe.label("restart=power_cycle");
+                        }
+                    }
+                    let mut r = build(&sc.source)
+                        .map_err(|e| format!("harness: rebuild failed: {e}"))?;
+                    if kind != Kind::Cold {
+                        inject(&mut r, &captured);
+                        let dr = dump(r.runtime());
+                        for (k, _) in &captured {
+                            if dr.vars.get(k) != before.vars.get(k) {
+                                return Err(format!("harness: injection of {k} into the model failed"));
+                            }
+                        }
+                    }
+                    let r = Reference {
+                        h: r,
+                        kind,
+                        at_op: i,
+                    };
+                    let what = format!("op {i} ({op:?})");
+                    // immediately after the restart: variables always; meta state for Cold
+                    compare(&a, &r, sc, &what, kind == Kind::Cold, false)?;
+                    facts.push(RestartFacts {
+                        ret_changed,
+                        non_changed,
+                        cycles_before: cycles,
+                        exercised_after: false,
+                    });
+                    if ret_changed {
+                        probe.label("restart_after=retained_changed");
+                    }
+                    if non_changed {
+                        probe.label("restart_after=non_retained_changed");
+                    }
+                    let meta_equal = dump(a.runtime()).meta == dump(r.h.runtime()).meta;
+                    if kind == Kind::Cold || meta_equal {
+                        reference = Some(r);
+                    } else {
+                        // not demanded by the property text for warm restarts: no continuation
+                        probe.label("warm_meta_differs=continuation_skipped");
+                        reference = None;
+                    }
+                }
+            }
+        }
+        Ok(())
+    })();
+    for p in to_remove {
+        let _ = std::fs::remove_file(p);
+    }
+    result?;
+
+    probe.label(format!("restarts={}", restarts.min(4)));
+    let has_binding = !sc.outputs.is_empty() || !sc.access.is_empty();
+    if has_binding
+        && facts
+            .iter()
+            .any(|f| f.ret_changed && f.non_changed && f.cycles_before >= 1 && f.exercised_after)
+    {
+        let mut key = sc.source.as_bytes().to_vec();
+        key.extend_from_slice(serde_json::to_string(&sc.ops).unwrap_or_default().as_bytes());
+        probe.nontrivial(&key);
+        probe.sample(json!({
+            "source_head": sc.source.chars().take(600).collect::<String>(),
+            "retained": sc.retained,
+            "ops": sc.ops.iter().map(|o| match o {
+                Op::Cycle{..} => "Cycle".to_string(),
+                other => format!("{other:?}"),
+            }).collect::<Vec<_>>(),
+        }));
+    }
+    Ok(())
+}
+
+// ---------------------------------------------------------------------------------------
+// separate-process load (thorough tier)
+
+fn load_in_child(source: &str, retain_file: &std::path::Path) -> Result<Dump, String> {
+    let src_path = scratch_dir().join(format!(
+        "src-{}.st",
+        STORE_SEQ.fetch_add(1, Ordering::Relaxed)
+    ));
+    std::fs::write(&src_path, source).map_err(|e| format!("harness: write source: {e}"))?;
+    let exe = std::env::current_exe().map_err(|e| format!("harness: current_exe: {e}"))?;
+    let out = std::process::Command::new(exe)
+        .arg("c09-load")
+        .arg(&src_path)
+        .arg(retain_file)
+        .stdin(std::process::Stdio::null())
+        .output()
+        .map_err(|e| format!("harness: spawn c09-load: {e}"))?;
+    let _ = std::fs::remove_file(&src_path);
+    if !out.status.success() {
+        return Err(format!(
+            "power cycle: loading the retain file in a new process failed ({:?}): {}",
+            out.status,
+            String::from_utf8_lossy(&out.stderr)
+        ));
+    }
+    serde_json::from_slice(&out.stdout).map_err(|e| format!("harness: child dump: {e}"))
+}
+
+/// Helper subcommands (child processes of this check); None = not mine.
+pub fn helper(args: &[String]) -> Option<i32> {
+    match args.first().map(|s| s.as_str()) {
+        Some("c09-load") if args.len() >= 3 => {
+            let src = match std::fs::read_to_string(&args[1]) {
+                Ok(s) => s,
+                Err(e) => {
+                    eprintln!("read {}: {e}", args[1]);
+                    return Some(2);
+                }
+            };
+            let mut h = match build(&src) {
+                Ok(h) => h,
+                Err(e) => {
+                    eprintln!("compile: {e}");
+                    return Some(2);
+                }
+            };
+            h.runtime_mut()
+                .set_retain_store(Some(Box::new(FileRetainStore::new(&args[2]))), None);
+            if let Err(e) = h.runtime_mut().load_retain_store() {
+                eprintln!("load_retain_store: {e:?}");
+                return Some(1);
+            }
+            println!("{}", serde_json::to_string(&dump(h.runtime())).unwrap());
+            Some(0)
+        }
+        Some("c09-gen") => {
+            // print generated scenarios (debug aid): c09-gen <seed> <count>
+            let seed: u64 = args.get(1).and_then(|s| s.parse().ok()).unwrap_or(1);
+            let count: usize = args.get(2).and_then(|s| s.parse().ok()).unwrap_or(1);
+            let mut x = seed.wrapping_mul(0x9E37_79B9_7F4A_7C15) | 1;
+            for _ in 0..count {
+                let mut data = Vec::new();
+                for _ in 0..400 {
+                    x ^= x << 13;
+                    x ^= x >> 7;
+                    x ^= x << 17;
+                    data.push((x >> 16) as u32);
+                }
+                let sc = gen::scenario(&Tape { data }, gen::Open::all_open());
+                println!("{}", sc.source);
+                println!("(* retained: {:?} *)", sc.retained);
+                println!("(* inputs: {:?} outputs: {:?} access: {:?} *)", sc.inputs, sc.outputs, sc.access);
+                println!("(* labels: {:?} excluded: {:?} *)", sc.labels, sc.excluded);
+                println!("(* ops: {:?} *)", sc.ops);
+                let mut p = Probe::default();
+                let res = run_scenario(&sc, &mut p, RunOpts { separate_process: false });
+                println!("(* result: {res:?} labels={:?} nontrivial={} *)", p.labels, p.nontrivial.is_some());
+            }
+            Some(0)
+        }
+        Some("c09-scenario") if args.len() >= 2 => {
+            // wrap a .st file + ops json into a replay file skeleton: c09-scenario <file.st>
+            let src = std::fs::read_to_string(&args[1]).ok()?;
+            let sc = Scenario {
+                source: src,
+                retained: vec![],
+                inputs: vec![],
+                outputs: vec![],
+                access: vec![],
+                ops: vec![],
+                store_interval_ms: None,
+                labels: vec![],
+                excluded: vec![],
+            };
+            println!("{}", serde_json::to_string_pretty(&sc).unwrap());
+            Some(0)
+        }
+        _ => None,
+    }
+}
+
+// ---------------------------------------------------------------------------------------
+
 fn run(ctx: &mut RunCtx) {
-    ctx.inconclusive("check not built yet");
+    let tier = ctx.tier;
+    let open = gen::Open {
+        retain_fb: ctx.is_open(K_RETAIN_FB),
+        varconfig_init: ctx.is_open(K_VARCONFIG),
+        mem_binding: ctx.is_open(K_MEM),
+        rwr: ctx.is_open(K_RWR),
+    };
+    let opts = RunOpts {
+        separate_process: false,
+    };
+    let strat = tape_strategy(420).prop_map(move |t| gen::scenario(&t, open));
+    ctx.search(
+        "history",
+        strat,
+        tier.pick(2_000, 60_000),
+        move |sc: &Scenario, p| run_scenario(sc, p, opts),
+    );
+    if tier == Tier::Thorough {
+        // the power cycle really crosses a process boundary
+        let strat = tape_strategy(420).prop_map(move |t| gen::scenario_with_power(&t, open));
+        let opts = RunOpts {
+            separate_process: true,
+        };
+        ctx.search("history_process", strat, 3_000, move |sc: &Scenario, p| {
+            run_scenario(sc, p, opts)
+        });
+    }
+    let ce = COMPILE_ERRORS.load(Ordering::Relaxed);
+    if ce > 0 && ctx.only_replay.is_none() {
+        ctx.inconclusive(format!(
+            "{ce} generated program(s) were rejected by the compiler (generator out of date?)"
+        ));
+    }
+    let _ = std::fs::remove_dir_all(scratch_dir());
 }
